@@ -357,8 +357,16 @@ func runC04(c *Ctx) {
 	}
 	r.Check(okBuf, "R4.4", "ReadWriter.Write buffer size", c.Pos(wr.Pos()), "make([]byte, size(isV2))", "the encode buffer is not allocated with size(isV2) bytes")
 
+	ruleStrings(c, "R4.5")
+	ruleValueCodecs(c, "R4.6")
+	_ = types.Typ
+}
+
+// ruleStrings (R4.5 / R3.7): fixed-size NUL-padded character arrays.
+func ruleStrings(c *Ctx, rule string) {
+	r := c.R
 	// R4.5 strings
-	r.Rule("R4.5", "strings: the decoder scans at most arrayLength bytes and stops at the first NUL, yields buf[:end] and consumes arrayLength; the encoder copies into buf[:arrayLength] and advances by arrayLength", 2)
+	r.Rule(rule, "strings: the decoder scans at most arrayLength bytes and stops at the first NUL, yields buf[:end] and consumes arrayLength; the encoder copies into buf[:arrayLength] and advances by arrayLength", 2)
 	if rv := c.Fn("pkg/message", "readValue"); rv != nil {
 		var bound, nul, conv, adv bool
 		for _, in := range allInstrs(rv) {
@@ -383,10 +391,10 @@ func runC04(c *Ctx) {
 				}
 			}
 		}
-		r.Check(bound && nul && conv && adv, "R4.5", "readValue string", c.Pos(rv.Pos()), "bounded scan to NUL, consumes arrayLength",
+		r.Check(bound && nul && conv && adv, rule, "readValue string", c.Pos(rv.Pos()), "bounded scan to NUL, consumes arrayLength",
 			fmt.Sprintf("string decoding shape wrong (scan bounded by arrayLength: %v, stops at NUL: %v, value is buf[:end]: %v, consumes arrayLength: %v)", bound, nul, conv, adv))
 		w2, why2 := writesParam(c, rv, 1, 1)
-		r.Check(!w2, "R4.5", "readValue buffer read-only", c.Pos(rv.Pos()), "readValue never writes its buffer", "readValue writes into the payload buffer: "+why2)
+		r.Check(!w2, rule, "readValue buffer read-only", c.Pos(rv.Pos()), "readValue never writes its buffer", "readValue writes into the payload buffer: "+why2)
 	}
 	if wv := c.Fn("pkg/message", "writeValue"); wv != nil {
 		var cp, adv bool
@@ -404,7 +412,6 @@ func runC04(c *Ctx) {
 				}
 			}
 		}
-		r.Check(cp && adv, "R4.5", "writeValue string", c.Pos(wv.Pos()), "copy into buf[:arrayLength], advance arrayLength", fmt.Sprintf("string encoding shape wrong (copy bounded by arrayLength: %v, advances arrayLength: %v)", cp, adv))
+		r.Check(cp && adv, rule, "writeValue string", c.Pos(wv.Pos()), "copy into buf[:arrayLength], advance arrayLength", fmt.Sprintf("string encoding shape wrong (copy bounded by arrayLength: %v, advances arrayLength: %v)", cp, adv))
 	}
-	_ = types.Typ
 }
